@@ -517,8 +517,11 @@ def run_shape(shape, tier="quick", seed=0):
             cands = _numeric_filter(_candidate_values(env.inputs, ctx, pmodel, rng, 12), ctx, pcs, [True])
             pending.append(dict(cands=cands, label=hard_false[0]["label"] + ": " + str(hard_false[0].get("detail", "")),
                                 pcs=pdesc, quiet=False))
-            rec["discharged"] += len(obls) - len(hard_false)
-            return
+            # the remaining obligations of the path are still decided (a structural failure must not mask them)
+            obls = [o for o in obls if o["neg"] is not True]
+            negs = [o["neg"] for o in obls if o["neg"] is not False]
+            if not obls:
+                return
         if not negs:
             rec["discharged"] += len(obls)
             rec["trivial"] += len(obls)
